@@ -241,7 +241,7 @@ PROPS['C05'] = {
         'PROVED (Verus, verbatim bodies of next_solution / next_solution_and / next_solution_or over the ghost node heap of spec/solver.rs, rule R15): a node that returns None is left in a state (`local_done`) from which every later request returns None, '
         'calls no predicate of the knowledge base and writes nothing - for complex goals, and / or, not, time and built-in predicates, whatever the knowledge base, the bindings and the results of unification; the invariant is kept by every request, also by those that answer. '
         'Partial correctness: the search need not terminate; the statement is about requests that return',
-        'RELATIVE TO the heap model of Rc<RefCell<SolutionNode>> (T8); the specification of the unsafe walk of set_no_backtracking (`walked`, spec/solver.rs) is PROVED on its verbatim body since 8.40 (unit cutwalk, among this property's units). next_solution_bip is PROVED in the unit (it tests and clears `more_solutions` before anything else; print / print_list / nl are one output event; the predicates themselves are abstract; an unknown functor or a missing operand of `=` panics, i.e. does not return). make_solution_node, make_base_node, set_head_node and SolutionNode::new are PROVED in the same unit (rule R15h: rc_cell!(x) is an allocation in the ghost heap): a fresh node one level below its parent with the given goal and bindings, operator nodes get their head node, existing nodes untouched, the invariant kept also while the nodes above are under construction',
+        'RELATIVE TO the heap model of Rc<RefCell<SolutionNode>> (T8); the specification of the unsafe walk of set_no_backtracking (`walked`, spec/solver.rs) is PROVED on its verbatim body since 8.40 (unit cutwalk, among the units of this property). next_solution_bip is PROVED in the unit (it tests and clears `more_solutions` before anything else; print / print_list / nl are one output event; the predicates themselves are abstract; an unknown functor or a missing operand of `=` panics, i.e. does not return). make_solution_node, make_base_node, set_head_node and SolutionNode::new are PROVED in the same unit (rule R15h: rc_cell!(x) is an allocation in the ghost heap): a fresh node one level below its parent with the given goal and bindings, operator nodes get their head node, existing nodes untouched, the invariant kept also while the nodes above are under construction',
         'solve() / solve_all() are under proof too (unit solutions, over the same heap, next_solution through its contract): asked on a query whose base node is done, solve() returns NO_MORE unless the timer stopped the query, solve_all() collects nothing but possibly the time-out message, and neither writes anything',
         'unify, get_rule, Rule::get_head/get_body, Goal::key, get_var_id/set_var_id are ABSTRACT in this unit (signature only, arbitrary results): the clauses hold for every behaviour of theirs that returns; their own panics are outside (C06, C10, C18 cover them under their preconditions)',
     ],
